@@ -121,6 +121,13 @@ pub fn actions() -> Vec<Action> {
     poor2.insert("q".into(), ArgValue::Int(900_000_000_000));
     v.push(Action { name: "fails-input-not-resolved@other-store", tx: lower(&outputs_src(2, None)), args: poor2, direct: false, own_store: Some(store(3)) });
     v.push(Action { name: "2-outputs@other-store", tx: lower(&outputs_src(2, None)), args: args.clone(), direct: false, own_store: Some(store(3)) });
+    // a store that holds a sibling output (same transaction, other index, other value) of the default store's UTxO
+    v.push(Action { name: "2-outputs@sibling-output-store", tx: lower(&outputs_src(2, None)), args: args.clone(), direct: false, own_store: Some(store(5)) });
+    // a wallet whose two UTxOs differ in make-up: a large payment can only take one of them, a small one takes the other
+    let mut large = args.clone();
+    large.insert("q".into(), ArgValue::Int(50_000_000));
+    v.push(Action { name: "2-outputs-large@mixed-wallet", tx: lower(&outputs_src(2, None)), args: large, direct: false, own_store: Some(store(6)) });
+    v.push(Action { name: "2-outputs@mixed-wallet", tx: lower(&outputs_src(2, None)), args: args.clone(), direct: false, own_store: Some(store(6)) });
     // scripts of each Plutus version with a redeemer: the script data hash is made from the language's cost model
     for version in 1..=3u8 {
         let src = format!(
@@ -172,6 +179,13 @@ fn store(which: usize) -> Vec<Utxo> {
         ],
         // what the same address held at another time
         3 => vec![tirb::utxo(UtxoRef { txid: vec![0x14; 32], index: 7 }, &a, CanonicalAssets::from_naked_amount(70_000_000))],
+        // another output of the transaction that made store 0's UTxO, holding something else
+        5 => vec![tirb::utxo(UtxoRef { txid: vec![0x11; 32], index: 1 }, &a, CanonicalAssets::from_naked_amount(50_000_000))],
+        // a wallet of mixed make-up: which UTxO a query takes depends on the target, and must depend on nothing else
+        6 => vec![
+            tirb::utxo(UtxoRef { txid: vec![0x15; 32], index: 0 }, &a, CanonicalAssets::from_naked_amount(5_000_000) + CanonicalAssets::from_defined_asset(&[0x44; 28], b"T", 1000)),
+            tirb::utxo(UtxoRef { txid: vec![0x16; 32], index: 1 }, &a, CanonicalAssets::from_naked_amount(100_000_000)),
+        ],
         // tight funds: enough for every template sized from its own body, not for one sized from a fat foreign body
         _ => vec![tirb::utxo(UtxoRef { txid: vec![0x13; 32], index: 0 }, &a, CanonicalAssets::from_naked_amount(3_000_000))],
     }
